@@ -255,6 +255,10 @@ class ConcreteStr:
                     raise OutOfSubset('symbolic slice of literal string')
                 return v.as_long()
             return S(recv.lit[c(idx.lo):c(idx.hi)])
+        if self.lit(recv) and idx.kind == 'int':
+            v = simplify(idx.t)
+            if z3.is_int_value(v) and -len(recv.lit) <= v.as_long() < len(recv.lit):
+                return S(recv.lit[v.as_long()])
         return NotImplemented
 
     def expr(self, ex, st, e):
